@@ -64,6 +64,21 @@ def wire_packets(kind: str, msgs, rng: random.Random, with_bad: bool = True):
     pk = []
     for i, m in enumerate(msgs):
         keep = None
+        if isinstance(m, tuple) and m and m[0] == "raw":
+            # a single CAN frame given as such (messages the library cannot encode, e.g. an ISO address claim)
+            _, pgn, src, dst, prio, data = m
+            from . import fastpacket as fp
+            pf = (pgn >> 8) & 0xFF
+            ident_ = (prio << 26) | (((pgn & 0x3FF00) | dst if pf < 240 else pgn) << 8) | src
+            if kind == "ebyte":
+                pk.append((fp.ebyte_packet(pgn, src, dst, prio, bytes(data)), "valid"))
+            elif kind == "waveshare":
+                pk.append((usb_packet(ident_, bytes(data)), "valid"))
+            elif kind == "yd":
+                pk.append((b"00:00:0%d.000 R %08X %s\r\n" % (i % 10, ident_, " ".join("%02X" % b for b in data).encode()), "valid"))
+            else:
+                pk.append((b"A00000%d.000 %05X %05X %s\r\n" % (i % 10, (src << 12) | (dst << 4) | prio, pgn, bytes(data).hex().upper().encode()), "valid"))
+            continue
         if isinstance(m, tuple):
             m, q, keep = m
             if q is not None:
@@ -122,7 +137,10 @@ def wire_packets(kind: str, msgs, rng: random.Random, with_bad: bool = True):
 def oracle_tokens(kind: str, packets, client_kwargs: dict):
     """what a decoder with the same settings returns per packet (content oracle): token k or 0"""
     from nmea2000.decoder import NMEA2000Decoder
-    dec = NMEA2000Decoder(**client_kwargs)
+    kw = dict(client_kwargs)
+    if kw.get("dump_to_file"):
+        kw["dump_to_file"] = kw["dump_to_file"] + ".reference"
+    dec = NMEA2000Decoder(**kw)
     toks, msgs = [], {}
     for k, (p, _) in enumerate(packets, start=1):
         try:
@@ -143,8 +161,9 @@ def oracle_tokens(kind: str, packets, client_kwargs: dict):
 
 
 def ident(m) -> tuple:
-    return (m.PGN, m.id, m.source, m.destination, m.priority,
-            tuple((f.id, repr(f.value), repr(f.raw_value)) for f in m.fields))
+    iso = getattr(m, "source_iso_name", None)
+    return (m.PGN, m.id, m.source, m.destination, m.priority, getattr(m, "hash", None), None if iso is None else iso.name,
+            tuple((f.id, repr(f.value), repr(f.raw_value), f.unit_of_measurement) for f in m.fields))
 
 
 def match_delivered(delivered, oracle_msgs: dict) -> list[int]:
@@ -166,8 +185,14 @@ def match_delivered(delivered, oracle_msgs: dict) -> list[int]:
 
 
 def receive_session(kind: str, packets, chunks: list[bytes], recv_cb="ok", client_kwargs: dict | None = None,
-                    sample_after: bool = True, sample_held: bool = False, gap: float = 5.0):
-    """connect, feed the chunks `gap` virtual seconds apart, stop; returns the Trace_Framing record"""
+                    sample_after: bool = True, sample_held: bool = False, gap: float = 5.0, register: str = "first",
+                    relink_before: int | None = None):
+    """connect, feed the chunks `gap` virtual seconds apart, stop; returns the Trace_Framing record.
+    register: "first" - the receive callback is set before connect() (the common order); "late" - it is set after connect(),
+    before anything arrives; "replace" - another callback takes over between the first chunk and the second (what reaches the
+    replaced one afterwards counts as not delivered); "none-then" - no callback while the first chunk arrives (its messages are
+    nobody's), one is set before the second.
+    relink_before = i: the gateway ends the link before chunk i and the client's new link carries the rest"""
     client_kwargs = client_kwargs or {}
     sess = vloop.Session()
     after: list[int] = []
@@ -176,8 +201,17 @@ def receive_session(kind: str, packets, chunks: list[bytes], recv_cb="ok", clien
 
     def scenario(s: vloop.Session):
         s.user("connect", s.client.connect)
+        if register == "late":
+            s.at_time(0.5, lambda: s.register_receiver("late"))
+        elif register == "replace":
+            s.at_time(0.5, lambda: s.register_receiver("first"))
+            s.at_time(1.0 + gap * 0.5, lambda: s.register_receiver("second"))
+        elif register == "none-then":
+            s.at_time(1.0 + gap * 0.5, lambda: s.register_receiver("late"))
         for i, ch in enumerate(chunks):
-            s.at_time(1.0 + gap * i, lambda ch=ch: s.feed(1, ch))
+            if relink_before is not None and i == relink_before:
+                s.at_time(1.0 + gap * i - gap * 0.6, lambda: s.eof(max(s.readers)))
+            s.at_time(1.0 + gap * i, lambda ch=ch: s.feed(max(s.readers), ch))
             if sample_after or sample_held:
                 def sample():
                     after.append(sum(1 for e in s.events if e["e"] == "DeliverDone"))
@@ -186,13 +220,24 @@ def receive_session(kind: str, packets, chunks: list[bytes], recv_cb="ok", clien
                 s.at_time(1.0 + gap * i + gap - 0.1, sample)
 
     events = sess.run(vloop.make_client_factory(kind, **client_kwargs), scenario, until=1.0 + gap * len(chunks) + 2.0,
-                      recv_cb=recv_cb)
+                      recv_cb=recv_cb, register="first" if register == "first" else "scenario")
     toks, omsgs = oracle_tokens(kind, packets, client_kwargs)
     end = events[-1]
     return {"disc": DISC[kind], "chunks": [list(c) for c in chunks], "packets": [list(p) for p, _ in packets],
             "tokens": toks, "delivered": match_delivered(sess.delivered, omsgs),
             "after": after if sample_after else [], "held": held, "cap": 64, "canonical": True,
             "spin": bool(end.get("spin")), "loopexc": sum(1 for e in events if e["e"] == "LoopException")}, events
+
+
+def deliveries(kind: str, packets, client_kwargs: dict | None = None, until: float = 12.0):
+    """the messages one client hands to its receive callback for a stream fed in one piece (plain plumbing, no verdict)"""
+    sess = vloop.Session()
+
+    def scenario(s: vloop.Session):
+        s.user("connect", s.client.connect)
+        s.at_time(1.0, lambda: s.feed(1, b"".join(p for p, _ in packets)))
+    sess.run(vloop.make_client_factory(kind, **(client_kwargs or {})), scenario, until=until)
+    return list(sess.delivered)
 
 
 def held_bytes(client) -> int:
